@@ -50,19 +50,15 @@ Theorem C14_HistoryBuffer_safe ssz ops : adds_sized ssz ops ->
   run (case_history ssz ops) = Safe.
 Proof. exact (case_history_safe ssz ops). Qed.
 
-(* ---- InitSurveillanceAreaGrid on 4-dimensional states, any grid, any particle count *)
-Theorem C14_InitSurveillanceAreaGrid_safe nx ny n l : ldim l = 4 ->
-  run (case_grid nx ny n l) = Safe.
+(* ---- InitSurveillanceAreaGrid: any grid, any particle count, states of ANY size (it returns false unless
+        the count is nx * ny and the states have the 4 rows x, vx, y, vy; the old program that wrote into 2- and
+        6-row states, with its witnesses, is in C14_Regress.v) *)
+Theorem C14_InitSurveillanceAreaGrid_safe nx ny n l : run (case_grid nx ny n l) = Safe.
 Proof. exact (case_grid_safe nx ny n l). Qed.
-
-(* ... but it writes x, 0, y, 0 into every state column whatever its size: false for the 2- and
-   6-dimensional states of the 1-D and 3-D motion models *)
-Theorem C14_InitSurveillanceAreaGrid_state_2d_refuted :
-  run (case_grid 2 2 4 (Lay 2 0 false 0)) = Fails e_grid "col<<x,0,y,0".
-Proof. exact grid_state_2d_refuted. Qed.
-Theorem C14_InitSurveillanceAreaGrid_state_6d_refuted :
-  run (case_grid 1 3 3 (Lay 6 0 false 0)) = Fails e_grid "col<<x,0,y,0".
-Proof. exact grid_state_6d_refuted. Qed.
+Theorem C14_InitSurveillanceAreaGrid_state_2d_safe nx ny n : run (case_grid nx ny n (Lay 2 0 false 0)) = Safe.
+Proof. exact (case_grid_safe nx ny n (Lay 2 0 false 0)). Qed.
+Theorem C14_InitSurveillanceAreaGrid_state_6d_safe nx ny n : run (case_grid nx ny n (Lay 6 0 false 0)) = Safe.
+Proof. exact (case_grid_safe nx ny n (Lay 6 0 false 0)). Qed.
 
 (* ---- sigma_point(): every layout (linear, circular, quaternion or not, noise), any component count *)
 Theorem C14_sigma_point_safe l comps : run (case_sigma l comps) = Safe.
@@ -214,8 +210,8 @@ Print Assumptions C14_bufferData_exhaustion_reported.
 Print Assumptions C14_SimulatedLinearSensor_safe.
 Print Assumptions C14_HistoryBuffer_safe.
 Print Assumptions C14_InitSurveillanceAreaGrid_safe.
-Print Assumptions C14_InitSurveillanceAreaGrid_state_2d_refuted.
-Print Assumptions C14_InitSurveillanceAreaGrid_state_6d_refuted.
+Print Assumptions C14_InitSurveillanceAreaGrid_state_2d_safe.
+Print Assumptions C14_InitSurveillanceAreaGrid_state_6d_safe.
 Print Assumptions C14_sigma_point_safe.
 Print Assumptions C14_augmentWithNoise_safe.
 Print Assumptions C14_unscented_transform_safe.
